@@ -184,7 +184,13 @@ def check(prop_id, tier):
     harness_bad = []
     extra_cov = {}
     with Pool(snap) as pool:
+        if any(cfg.asan for part in prop.parts for cfg, _w in (part.configs or [])):
+            pool.asan_snapshot = build.snapshot(asan=True)      # built once, before worker threads could race for it
+            out('  sanitizer snapshot %s (clang -fsanitize=address)' % os.path.basename(pool.asan_snapshot))
+        only_parts = [x for x in os.environ.get('ZISIM_PARTS', '').split(',') if x]      # development aid; unset in registered commands
         for part in prop.parts:
+            if only_parts and part.name not in only_parts:
+                continue
             n = part.quick if tier == 'quick' else part.thorough
             budget = part.quick_s if tier == 'quick' else part.thorough_s
             scale = float(os.environ.get('ZISIM_SCALE', '1') or 1)
